@@ -152,6 +152,53 @@ func TestC12(t *testing.T) {
 					}
 				}
 			}
+			// the same bytes passing through the proxy again (a page read twice, a batch re-sent after a reconnect), with a
+			// large batch: every pass must be translated — a performance shortcut must not remember a previous pass
+			if hasBlobStep(p) && obs == "translated" && (e.Thorough() || e.Rng.IntN(4) == 0) {
+				if m, err := buildAlong(g, p, func(f reflect.Value) { f.SetString("local-ns") }); err == nil {
+					big := plainPadEvent(95)
+					big.GetWorkflowTaskCompletedEventAttributes().Identity = strings.Repeat("worker-identity-", 700) // > 10 KiB
+					mapEventBlobs(m.ProtoReflect(), func(evs []*historypb.HistoryEvent) []*historypb.HistoryEvent {
+						return append(append([]*historypb.HistoryEvent{}, evs...), big)
+					})
+					wire, merr := proto.Marshal(m)
+					for pass := 1; merr == nil && pass <= 3; pass++ {
+						again := m.ProtoReflect().New().Interface()
+						if proto.Unmarshal(wire, again) != nil {
+							break
+						}
+						cmp, terr := translateAndCompare(tr, again, true, ro)
+						got := "?"
+						if l, lerr := readLeaf(g, p, again); lerr == nil && l.Kind() == reflect.String {
+							got = l.String()
+						}
+						e.Emit(fmt.Sprintf("# same-bytes pass %d %s", pass, p.opString()), "#")
+						e.Evals++
+						e.Count("same_bytes_pass")
+						if terr != nil || cmp != "equal" || got != "remote-ns" {
+							e.Violation(map[string]any{"what": fmt.Sprintf("namespace name at %s (root %s), large batch, pass %d of the same bytes through the translator: the leaf reads %q (want \"remote-ns\"), comparison with the reference translation: %s, err=%v", describePath(g, p), g.Types[p.Root].Go, pass, got, cmp, terr), "ops": []string{op, "# same-bytes"}})
+							break
+						}
+					}
+				}
+			}
+			// the same message with its history blobs JSON-encoded (the other encoding the serializer reads): what leaves the
+			// translator must decode (under the encoding it is labelled with) to the translated events
+			if hasBlobStep(p) && obs == "translated" && (e.Thorough() || e.Rng.IntN(3) == 0) {
+				if m, err := buildAlong(g, p, func(f reflect.Value) { f.SetString("local-ns") }); err == nil && jsonEncodeBlobs(m.ProtoReflect()) > 0 {
+					cmp, terr := translateAndCompare(tr, m, true, ro)
+					got := "?"
+					if l, lerr := readLeaf(g, p, m); lerr == nil && l.Kind() == reflect.String {
+						got = l.String()
+					}
+					e.Emit("# json-blob "+p.opString(), "#")
+					e.Evals++
+					e.Count("json_blob_" + cmp)
+					if terr != nil || cmp != "equal" || got != "remote-ns" {
+						e.Violation(map[string]any{"what": fmt.Sprintf("namespace name at %s (root %s) inside a JSON-encoded history blob: after translation the leaf reads %q (want \"remote-ns\"), comparison with the reference translation: %s, err=%v", describePath(g, p), g.Types[p.Root].Go, got, cmp, terr), "ops": []string{op, "# json-blob"}})
+					}
+				}
+			}
 			// the same event in a batch that ALSO needs the UTF-8 repair (invalid bytes in a failure message of another
 			// event): the blob that leaves the translator must be both repaired and translated
 			if hasBlobStep(p) && obs == "translated" && (e.Thorough() || e.Rng.IntN(2) == 0) {
